@@ -33,6 +33,14 @@ pub fn spawn_external(prop_id: &str, tier: &str, seed: u64, root: &Path, out_dir
     let target = match (tier, prop_id) {
         ("thorough", "C01") => Some("fz_total"),
         ("thorough", "C04") => Some("fz_diff"),
+        ("thorough", "C07") => Some("fz_eq"),
+        ("thorough", "C08") => Some("fz_seq"),
+        ("thorough", "C09") => Some("fz_rel"),
+        ("thorough", "C10") => Some("fz_arith"),
+        ("thorough", "C11") => Some("fz_path"),
+        ("thorough", "C12") => Some("fz_missing"),
+        ("thorough", "C15") => Some("fz_coll"),
+        ("thorough", "C16") => Some("fz_str"),
         _ => None,
     };
     if let Some(target) = target {
